@@ -53,5 +53,26 @@ for sc in SCN.SCENARIOS[:nmax]:
         check(s, '{}/seed{}/end'.format(sc['name'], seed))
         if len(bad) > 5:
             break
+# noisy, not perfectly nested bounds (small live set, frequent updates) and
+# batches of one or two points: a batch often has no point in the next bound
+for (nb_, seed) in ((1, 0), (2, 1), (2, 2)):
+    if len(bad) > 5:
+        break
+    sc = dict(name='noisy_bounds', like='gauss', n_live=50, n_batch=nb_,
+              n_networks=0)
+    s = SCN.make_sampler(sc, seed=seed, n_update=10)
+
+    class Stop(Exception):
+        pass
+
+    def cb(smp, w, nb_=nb_, seed=seed):
+        check(smp, 'noisy_bounds/n_batch={}/seed{}/{}'.format(nb_, seed, w))
+        if bad:
+            raise Stop()
+    try:
+        SCN.run_with_hooks(s, cb, n_eff=0, n_shell=40, n_like_max=4000,
+                           verbose=False)
+    except Stop:
+        pass
 print(json.dumps(dict(checked=checked[0], violations=bad[:10])))
 sys.exit(1 if bad else 0)
